@@ -88,6 +88,9 @@ def real_cases(menu, filters_index):
         dict(prefix=[], threads=[{"k": "store", "a": 1}, {"k": "store", "a": 2}, {"k": "query", "f": q["authors12_k1"]}]),
         dict(prefix=[], threads=[{"k": "store", "a": 1}, {"k": "store", "a": 2}, {"k": "query", "f": q["authors12_tx"]}]),
         dict(prefix=[], threads=[{"k": "store", "a": 1}, {"k": "store", "a": 9}, {"k": "query", "f": q["kinds_tx"]}]),
+        # an ephemeral event (appended, never indexed; its length is not a multiple of 8) racing with ordinary stores
+        dict(prefix=[], threads=[{"k": "store", "a": 1}, {"k": "store", "a": 8}, {"k": "get", "a": 1}]),
+        dict(prefix=[{"k": "store", "a": 2}], threads=[{"k": "store", "a": 8}, {"k": "store", "a": 3}, {"k": "query", "f": q["ids1_3"]}]),
     ]
 
 
